@@ -158,6 +158,15 @@ pub struct RunCfg {
     /// first poll or in the poll in which they complete), instead of the explorer between polls.
     #[serde(default)]
     pub mid_poll_int: bool,
+    /// Inside-poll behaviour of the caller's futures: each may once wake itself and return Pending
+    /// (.0 times per run), and a completing one may complete a sibling from inside its own poll
+    /// (.1 times per run).
+    #[serde(default)]
+    pub gate_tricks: (u8, u8),
+    /// How many user futures may drive a nested run on the same graph from inside their first poll
+    /// (`&self` APIs only).
+    #[serde(default)]
+    pub nested: u8,
 }
 
 /// The three StreamOpts builder steps in one of the 6 possible call orders.
@@ -216,6 +225,8 @@ impl RunCfg {
             pre: None,
             task_budget: None,
             mid_poll_int: false,
+            gate_tricks: (0, 0),
+            nested: 0,
         }
     }
 
@@ -258,6 +269,12 @@ impl RunCfg {
         if self.mid_poll_int {
             s += " signal-sent-by-a-user-future";
         }
+        if self.nested > 0 {
+            s += &format!(" user-futures-may-run-the-same-graph-inside-their-poll(<={})", self.nested);
+        }
+        if self.gate_tricks != (0, 0) {
+            s += &format!(" user-futures-may-wake-themselves(<={})/complete-a-sibling-inside-their-poll(<={})", self.gate_tricks.0, self.gate_tricks.1);
+        }
         s
     }
 }
@@ -297,6 +314,8 @@ pub struct RunRes {
     /// Hashes of the abstract state at every decision point.
     pub states: Vec<u64>,
     pub diverged: bool,
+    /// Nested runs driven by user futures of this run.
+    pub nested: Vec<crate::exec::NestedRun>,
 }
 
 fn so_to_out<T>(ok: bool, so: StreamOutcome<T>, errors: Vec<usize>, seed: impl FnOnce(T) -> Vec<usize>) -> Out {
@@ -587,12 +606,121 @@ macro_rules! run_fut {
     }};
 }
 
+/// A complete run on `g` with functions that finish at once, driven to its end here and now
+/// (called from inside a user future of an outer run on the same graph).
+pub fn nested_run(g: &FnGraph<Node>, kind: usize) -> crate::exec::NestedRun {
+    use futures::Stream;
+    use std::cell::RefCell;
+    let n = g.graph.node_count();
+    let order: RefCell<Vec<i32>> = RefCell::new(vec![]);
+    struct YieldTwice<'a> {
+        left: u8,
+        id: i32,
+        log: &'a RefCell<Vec<i32>>,
+    }
+    impl Future for YieldTwice<'_> {
+        type Output = ();
+        fn poll(mut self: Pin<&mut Self>, cx: &mut Context<'_>) -> Poll<()> {
+            if self.left > 0 {
+                self.left -= 1;
+                cx.waker().wake_by_ref();
+                Poll::Pending
+            } else {
+                self.log.borrow_mut().push(-(self.id + 1));
+                Poll::Ready(())
+            }
+        }
+    }
+    let waker = Waker::from(FlagWaker::new());
+    let mut cx = Context::from_waker(&waker);
+    let horizon = 8 * n + 32;
+    let mut completed = false;
+    match kind {
+        1 => {
+            let fut = g.for_each_concurrent(None, |nd: &Node| {
+                order.borrow_mut().push(nd.id as i32 + 1);
+                order.borrow_mut().push(-(nd.id as i32 + 1));
+                std::future::ready(())
+            });
+            let mut fut = std::pin::pin!(fut);
+            for _ in 0..horizon {
+                if fut.as_mut().poll(&mut cx).is_ready() {
+                    completed = true;
+                    break;
+                }
+            }
+        }
+        2 => {
+            let fut = g.fold_async((), |(), nd| {
+                order.borrow_mut().push(nd.id as i32 + 1);
+                order.borrow_mut().push(-(nd.id as i32 + 1));
+                async move {}.boxed_local()
+            });
+            let mut fut = std::pin::pin!(fut);
+            for _ in 0..horizon {
+                if fut.as_mut().poll(&mut cx).is_ready() {
+                    completed = true;
+                    break;
+                }
+            }
+        }
+        5 => {
+            let fut = g.try_for_each_concurrent(None, |nd: &Node| {
+                order.borrow_mut().push(nd.id as i32 + 1);
+                order.borrow_mut().push(-(nd.id as i32 + 1));
+                std::future::ready(Ok::<(), ()>(()))
+            });
+            let mut fut = std::pin::pin!(fut);
+            for _ in 0..horizon {
+                if fut.as_mut().poll(&mut cx).is_ready() {
+                    completed = true;
+                    break;
+                }
+            }
+        }
+        4 => {
+            let fut = g.for_each_concurrent(None, |nd: &Node| {
+                order.borrow_mut().push(nd.id as i32 + 1);
+                YieldTwice { left: 2, id: nd.id as i32, log: &order }
+            });
+            let mut fut = std::pin::pin!(fut);
+            for _ in 0..3 * horizon {
+                if fut.as_mut().poll(&mut cx).is_ready() {
+                    completed = true;
+                    break;
+                }
+            }
+        }
+        _ => {
+            let st = g.stream();
+            let mut st = std::pin::pin!(st);
+            for _ in 0..horizon + n {
+                match st.as_mut().poll_next(&mut cx) {
+                    Poll::Ready(Some(fn_ref)) => {
+                        order.borrow_mut().push(fn_ref.id as i32 + 1);
+                        order.borrow_mut().push(-(fn_ref.id as i32 + 1));
+                        drop(fn_ref);
+                    }
+                    Poll::Ready(None) => {
+                        completed = true;
+                        break;
+                    }
+                    Poll::Pending => {}
+                }
+            }
+        }
+    }
+    crate::exec::NestedRun { kind: kind as u8, order: order.into_inner(), completed }
+}
+
 /// Executes one run of `cfg.api` on `g` under the choice list `prefix`.
 pub fn run_on(g: &mut FnGraph<Node>, cfg: &RunCfg, prefix: Vec<u16>) -> RunRes {
     let n = g.graph.node_count();
     let mut fail = cfg.fail.clone();
     fail.resize(n, false);
     let sh: Sh = Shared::new(n, fail, crate::exec::Chooser::shared(prefix), cfg.imm_choice, cfg.base == Base::AllImmediate);
+    sh.borrow_mut().selfwake_left = cfg.gate_tricks.0;
+    sh.borrow_mut().sibling_left = cfg.gate_tricks.1;
     let r = catch_quiet(|| run_inner(g, cfg, &sh));
     let (status, out, polls, states) = match r {
         Ok(d) => (d.status, d.out, d.polls, d.states),
@@ -601,9 +729,11 @@ pub fn run_on(g: &mut FnGraph<Node>, cfg: &RunCfg, prefix: Vec<u16>) -> RunRes {
     let (ev, taken, diverged) = {
         let mut s = sh.borrow_mut();
         let diverged = s.ch.borrow().diverged;
+        s.nested = None;
         (std::mem::take(&mut s.ev), std::mem::take(&mut s.local), diverged)
     };
-    RunRes { status, out, ev, taken, polls, states, diverged }
+    let nested = std::mem::take(&mut sh.borrow_mut().nested_runs);
+    RunRes { status, out, ev, taken, polls, states, diverged, nested }
 }
 
 fn run_inner(g: &mut FnGraph<Node>, cfg: &RunCfg, sh: &Sh) -> DriveRes {
@@ -614,6 +744,12 @@ fn run_inner(g: &mut FnGraph<Node>, cfg: &RunCfg, sh: &Sh) -> DriveRes {
     if cfg.mid_poll_int && cfg.interrupt && intx.is_some() {
         let itx = itx.clone();
         sh.borrow_mut().mid_int = Some(Box::new(move || itx.try_send(InterruptSignal).expect("interrupt channel has room")));
+    }
+    if cfg.nested > 0 && !cfg.api.mutable {
+        // the outer call borrows the graph shared (`&self` API): a user function may use it too
+        let gp: *const FnGraph<Node> = &*g;
+        sh.borrow_mut().nested_left = cfg.nested;
+        sh.borrow_mut().nested = Some(Box::new(move |kind| nested_run(unsafe { &*gp }, kind)));
     }
     let limit = cfg.limit;
     let sh2 = sh.clone();
